@@ -71,7 +71,7 @@ func doAclCheck(method string, path string, token *jwt.Token, core *security.Ser
 
 	// get the method
 	action := "read"
-	if method == "DELETE" || method == "POST" {
+	if method != http.MethodGet && method != http.MethodHead {
 		action = "write"
 	}
 
